@@ -12,6 +12,7 @@ import (
 	"go/token"
 	"go/types"
 	"sort"
+	"path/filepath"
 	"strings"
 
 	"golang.org/x/tools/go/ssa"
@@ -62,6 +63,7 @@ type PathResult struct {
 	Inputs   map[string]uint64
 	Notes    []string
 	Events   []string
+	Funcs    map[string]bool // pike functions entered on this path
 	NotComparable string // non-empty: the path cannot be compared with a native run (library stub, verifNative branch, free-outcome stub)
 }
 
@@ -540,6 +542,19 @@ func (ex *Exec) callFunction(fn *ssa.Function, args []Value, bind []Value) (ret 
 			panic(pathEnd{"seq-overflow"})
 		}
 	}
+	if ex.res != nil && fn.Pkg != nil && strings.HasPrefix(fn.Pkg.Pkg.Path(), pikeMod) && !ex.res.Funcs[fn.String()] {
+		// pike's own functions only: harness code lives in overlaid zz_ files, package initialisers are noise
+		own := fn.Synthetic == "" && fn.Name() != "init" && !strings.HasPrefix(fn.Name(), "init#")
+		if pos := fn.Pos(); own && pos.IsValid() && strings.HasPrefix(filepath.Base(ex.ld.Fset.Position(pos).Filename), "zz_") {
+			own = false
+		}
+		if own {
+			if ex.res.Funcs == nil {
+				ex.res.Funcs = map[string]bool{}
+			}
+			ex.res.Funcs[fn.String()] = true
+		}
+	}
 	fr := &Frame{fn: fn, env: make(map[ssa.Value]Value, 32), visits: map[int]int{}, caller: ex.curFrame, callPos: ex.curPos}
 	ex.curFrame = fr
 	defer func() { ex.depth--; ex.curFrame = fr.caller }()
@@ -650,7 +665,8 @@ func (ex *Exec) globalObj(g *ssa.Global) *Object {
 	// lz4.ErrInvalidSourceShortBuffer, ...) stand for themselves: one unique error value each
 	if types.Identical(elem, types.Universe.Lookup("error").Type()) && g.Pkg != nil && !strings.HasPrefix(g.Pkg.Pkg.Path(), pikeMod) && len(g.Pkg.Members) > 0 {
 		if fn := g.Pkg.Func("init"); fn == nil || fn.Blocks == nil {
-			o.Val = ex.libError(name)
+			// golang.org/x/net/context re-exports the standard library's values
+			o.Val = ex.libError(strings.Replace(name, "golang.org/x/net/context.", "context.", 1))
 		}
 	}
 	o.Name = name
